@@ -39,6 +39,8 @@ def main():
         extra_nc = ['budget not met, withdrawn from the claim: ' + x for x in lengine.BUDGET_NOT_MET]
     except Exception:
         extra_nc = []
+    import common as _c
+    extra_nc += ['decided in the thorough tier only (above the quick tier\'s time budget): ' + x for x in sorted(set(_c.QUICK_SKIPPED))]
     ev = write_evidence(pid, a.tier, spec['level'], obls, wall, spec['trusted_base'], spec['not_covered'] + extra_nc,
                         './check %s --tier %s' % (pid, a.tier), spec.get('explanation', ''))
     for o in obls:
